@@ -52,6 +52,7 @@ impl ParseData for FromTypeParamOptions {
 
     fn validate_body(&self, errors: &mut crate::error::Accumulator) {
         self.base.validate_body(errors);
+        self.base.validate_tuple_struct(false, errors);
     }
 }
 
